@@ -42,6 +42,11 @@ func c10classes() []c10class {
 			b := &Cfg{Params: []Param{{"q", "%p%"}}, Services: []Service{{Name: "b", Value: P("pk.Var")}}}
 			return []File{{"a.yaml", a.YAML()}, {"b.yaml", b.YAML()}}
 		}, nil, true},
+		{"valid-odd-file-names", func() []File {
+			a := c10valid()
+			b := &Cfg{Params: []Param{{"q", "%p%"}}}
+			return []File{{"a,b.yaml", a.YAML()}, {"c d (1).yaml", b.YAML()}}
+		}, nil, true},
 		{"yaml-error", func() []File { return []File{{"c.yaml", "services: [unclosed\n"}} }, nil, false},
 		{"shape-error", func() []File { return []File{{"c.yaml", "services:\n  a:\n    constructor: New\n    calls: [[]]\n"}} }, nil, false},
 		{"yaml-type-error", func() []File { return []File{{"c.yaml", "parameters: []\nservices: 5\n"}} }, nil, false},
@@ -58,6 +63,11 @@ func c10classes() []c10class {
 			c.Params = append(c.Params, Param{"9", 1})
 		}), nil, false},
 		{"token-error", mod(func(c *Cfg) { c.Params = append(c.Params, Param{"t", "%nofn()%"}, Param{"u", "50%"}) }), nil, false},
+		{"compile-error-must-getter", mod(func(c *Cfg) {
+			c.Meta.DefaultMustGetter = P(true)
+			c.Services[0].MustGetter = P(true) // explicit must_getter without a getter, whatever the default says
+		}), nil, false},
+		{"compile-error-argument", mod(func(c *Cfg) { c.Services[0].Args = []any{"@", "!value 1x"} }), nil, false},
 		{"formatter-error", mod(func(c *Cfg) { c.Meta.ContainerType = P("func") }), nil, false},
 		{"missing-param", mod(func(c *Cfg) { c.Services[0].Args = []any{"%nope%", "%nope2%"} }), nil, false},
 		{"missing-service", mod(func(c *Cfg) { c.Services[0].Args = []any{"@nope"} }), nil, false},
@@ -70,6 +80,9 @@ func c10classes() []c10class {
 		{"mixed-output-errors", mod(func(c *Cfg) { c.Services[0].Args = []any{"@a", "%nope%", "@gone"} }), nil, false},
 		{"version-mismatch", mod(func(c *Cfg) { c.Version = P("9.9.9") }), nil, false},
 		{"matched-twice", one(c10valid()), func(fs []File) []string { return []string{"-i", "c.yaml", "-i", "c*.yaml"} }, false},
+		{"matched-twice-identical", one(c10valid()), func(fs []File) []string { return []string{"-i", "c.yaml", "-i", "c.yaml"} }, false},
+		{"matched-twice-identical-glob", one(c10valid()), func(fs []File) []string { return []string{"-i", "c*.yaml", "-i", "c*.yaml"} }, false},
+		{"matched-thrice", one(c10valid()), func(fs []File) []string { return []string{"-i", "c.yaml", "-i", "*.yaml", "-i", "c.yaml"} }, false},
 		{"matched-twice-dot-slash", one(c10valid()), func(fs []File) []string { return []string{"-i", "c.yaml", "-i", "./c.yaml"} }, false},
 		{"matched-twice-dirty-path", func() []File { return []File{{"c.yaml", c10valid().YAML()}, {"sub/keep", ""}} }, func(fs []File) []string { return []string{"-i", "sub/../c.yaml", "-i", "c.yaml"} }, false},
 		{"matched-twice-glob-and-dirty", one(c10valid()), func(fs []File) []string { return []string{"-i", ".//c.yaml", "-i", "?.yaml"} }, false},
@@ -220,7 +233,7 @@ func init() {
 	Register(&Check{
 		ID:    "C10",
 		Level: "fault_enumeration",
-		Rule: "26 configuration / environment classes (valid, two files, YAML syntax error, YAML type errors whose message spans several lines (one file, nested, second file), shape error, grammar error(s), token errors, formatter error, missing parameter / service, cycle, scope, mixed output errors, version mismatch, file matched twice (same spelling, ./ prefix, dirty path, glob + dirty path), missing input, only missing input, empty glob, invalid glob, input is a directory) x all 16 flag combinations (quiet, stub, ignore-missing-params, ignore-missing-services) x 5 output pre-states (absent, existing file with old mtime and 0600, directory, missing parent, same path as an input) " +
+		Rule: "32 configuration / environment classes (valid, two files, file names with a comma / spaces / parentheses, YAML syntax error, YAML type errors whose message spans several lines (one file, nested, second file), shape error, grammar error(s), token errors, compile errors (must-getter without getter under default_must_getter, malformed @ / !value arguments), formatter error, missing parameter / service, cycle, scope, mixed output errors, version mismatch, file matched twice (the identical pattern repeated, glob repeated, three times, file + glob, ./ prefix, dirty path, glob + dirty path), missing input, only missing input, empty glob, invalid glob, input is a directory) x all 16 flag combinations (quiet, stub, ignore-missing-params, ignore-missing-services) x 5 output pre-states (absent, existing file with old mtime and 0600, directory, missing parent, same path as an input) " +
 			"x injected file-system answers at every os.ReadFile / os.WriteFile / filepath.Glob call of internal/cmd/runner (EACCES, EIO, ErrBadPattern): all executions with <= 1 injected answer (quick) / <= 2 (thorough); plus the real binary's exit status for one representative of every class. non-trivial = a failure class, a non-absent pre-state or an injected fault; distinct = distinct (class, flags, pre-state, fault plan)",
 		Assumptions: []string{
 			"file-system answers are injected with go build -overlay (os.ReadFile, os.WriteFile, filepath.Glob in internal/cmd/runner rewritten to a shim); a write that fails after truncation is outside the statement's fault list and not injected",
